@@ -2,16 +2,17 @@
 from props.registry_common import AREA, EXTRACT_V, GO_CMD, pre_coq, dup_opid_in_block, TRUSTED_BASE  # noqa: F401
 
 ID = "C11"
-COQ_TARGETS = ["Props/C11.vo"]
+COQ_TARGETS = ["Props/C11.vo", "Registry/Crash.vo"]   # Crash.vo: the shared extraction needs it
 RULE = ("histories of blocks of registry events (all eight kinds; valid and malformed ValidatorAdded: bad / replayed / "
         "foreign signature, unknown / duplicate / wrong-size committee, wrong shares length, undecryptable / mismatching / "
         "non-hex own key; removal and exit by a stranger; duplicate adds; unparsable logs), metadata updates, restarts, "
-        "stale blocks; non-trivial = the case registers at least one validator and contains at least one rejected "
+        "stale blocks, two OperatorAdded with one id in one block; non-trivial = the case registers at least one validator and contains at least one rejected "
         "ValidatorAdded or a ValidatorRemoved/Exited; distinct by op lines")
 ASSUMPTIONS = [
     "operator ids in OperatorAdded events are non-zero (the contract counts from 1)",
-    "as coded, SaveOperatorData checks existence against the committed database: the theorems assume no block contains "
-    "two OperatorAdded events with the same id (the contract never reuses an id); without it they are refuted (finding)",
+    "only while coq/Gen/RegistryConsts.v says ops_read_committed = true (SaveOperatorData checking existence against the "
+    "committed database, the state before fix cf04b819e / finding F10): no block contains two OperatorAdded events with the "
+    "same id; with the fix in place the constant is false and the hypothesis is vacuous",
     "keccak256 collision freeness (cluster id), BLS / RSA correctness (enter as boolean facts of the abstract event)",
     "a fatal (non-malformed) handler error ends the process (logger.Fatal in the callers); in-memory state after it is not claimed",
     "badger transactions are atomic; single writer (the event handler) during block processing",
@@ -39,8 +40,8 @@ def nontrivial(case):
 
 
 def matches_known(finding, case):
-    if finding.get("id") == "F8":
-        return dup_opid_in_block(case)
+    # F10 (duplicate operator id inside one block) is FIXED (cf04b819e): nothing is suppressed.
+    # dup_opid_in_block(case) is its signature, kept for the record.
     return False
 
 
